@@ -223,12 +223,13 @@ def systematic_mutations(doc, r, cap):
         if path and node is not None:
             out.append((set_at(doc, path, None), 'null'))
     r.shuffle(out)
-    # keep the kinds balanced
+    # arity mutations are kept for (nearly) every list of the document, the other kinds are sampled
+    quota = {'short': max(4, cap // 2), 'long': max(2, cap // 4), 'null': max(2, cap // 4), 'eqtype': max(2, cap // 4), 'retype': max(2, cap // 4)}
     picked, seen = [], {}
     for d, k in out:
-        if seen.get(k, 0) < max(1, cap // 5):
+        if seen.get(k, 0) < quota[k]:
             picked.append((d, k)); seen[k] = seen.get(k, 0) + 1
-    return picked[:cap]
+    return picked
 
 
 # ------------------------------------------------------------------------------ loading
@@ -262,8 +263,10 @@ def load_once(cls, spec, reg, doc, use_json=False, v1=False):
     else:
         try:
             out['show'] = rt.show(r, reg)
+            first_sorted = rt.show(r, reg, sort_sets='dicts')
         except Exception as e:
             out['show'] = '?show:%r' % (e,)
+            first_sorted = out['show']
         strict = rt.conforms(r, spec, reg)
         out['conf'] = strict
         if strict is not None:
@@ -274,10 +277,10 @@ def load_once(cls, spec, reg, doc, use_json=False, v1=False):
     # the SAME document object loaded a second time must behave as the first time
     try:
         r2 = cls.from_json(json.dumps(j)) if use_json else fromdict(cls, j)
-        second = ('show', rt.show(r2, reg))
+        second = ('show', rt.show(r2, reg, sort_sets='dicts'))
     except BaseException as e:
         second = ('err', type(e).__name__)
-    first = ('show', out['show']) if 'show' in out else ('err', out.get('err'))
+    first = ('show', first_sorted) if 'show' in out else ('err', out.get('err'))
     out['second_same'] = (second == first)
     if not out['second_same']:
         out['second'] = list(second)
@@ -289,9 +292,12 @@ def run_case(c):
     from dataclass_wizard import asdict, LoadMeta
     out = {'docs': []}
     try:
+        rt.fresh_typing_caches()
         reg = rt.Reg()
         cls = rt.build_type(c['root'], reg)
         out['coq_t'] = rt.coq_ty(c['root'], reg)
+        out['f56'] = rt.has_f56(cls)
+        out['alias_reordered'] = None
         reg1 = rt.Reg()
         spec1 = v1_spec(c['root'])
         cls1 = rt.build_type(spec1, reg1)
@@ -312,6 +318,7 @@ def run_case(c):
         out['setup_err'] = err_info(e); out['setup_err']['tb'] = traceback.format_exc()[-600:]
         return out
     out['lets'] = reg.lets
+    out['alias_reordered'] = reg.alias_reordered
     kinds = kinds_of(c['root'])
     r = random.Random(c['seed'])
     docs = [(base, 'welltyped')]
